@@ -2351,13 +2351,42 @@ fn cluster(seed: u64, malformed: bool, cov: &mut Coverage) -> Sim<'_> {
         3 => 1,
         _ => 2,
     } as u64;
-    let nspare = rng.below(3);
+    let mut nspare = rng.below(3);
+    // large groups (a separate generator, so that the other draws of a seed stay what they were): more than seven voters
+    // in one majority set (quorum/majority.rs leaves its stack buffer), nine or more distinct voters over both halves of
+    // a joint configuration (the vote-request loop of `campaign`), even sizes
+    let mut rngx = Rng::new(seed ^ 0xB16_6E0);
+    let large = match rngx.below(25) {
+        0 => 1,
+        1 => 2,
+        _ => 0,
+    };
+    let (nv, nl) = match large {
+        1 => (7 + rngx.below(5), nl.min(1)),
+        2 => (4 + rngx.below(3), nl.min(1)),
+        _ => (nv, nl),
+    };
+    if large == 2 {
+        nspare = 4 + rngx.below(2);
+    }
     let total = nv + nl + nspare;
     let voters: Vec<u64> = (1..=nv).collect();
     let learners: Vec<u64> = (nv + 1..=nv + nl).collect();
     let mut cs = ConfState::default();
     cs.set_voters(voters.clone());
     cs.set_learners(learners.clone());
+    if large == 2 {
+        // a membership swap in progress: the outgoing half keeps one or two of the incoming voters, the rest are others
+        let mut out: Vec<u64> = voters.iter().cloned().take(1 + rngx.below(2) as usize).collect();
+        out.extend(nv + nl + 1..=nv + nl + nspare);
+        cs.set_voters_outgoing(out);
+        cs.auto_leave = rngx.chance(50);
+    } else if large == 1 && rngx.chance(30) {
+        let mut out = voters.clone();
+        out.truncate(out.len() - rngx.below(3) as usize);
+        cs.set_voters_outgoing(out);
+        cs.auto_leave = rngx.chance(50);
+    } else
     // sometimes the cluster starts inside a joint configuration
     if nv >= 2 && rng.chance(15) {
         let mut out = voters.clone();
